@@ -19,6 +19,25 @@ Theorem C01_registry_wf : wf_registry registry = true.
 Proof. vm_compute. reflexivity. Qed.
 Print Assumptions C01_registry_wf.
 
+(* The four registries (commands, events, LE sub-events, vendor sub-events) are distinct dict
+   objects, and every vendor factory dispatches to a registered vendor sub-event class.
+   (Part of C01_registry_wf; stated separately because the unknown-code and event-code
+   theorems below rest on it together with kind consistency.) *)
+Theorem C01_registries_distinct : objects_distinct registry = true /\ vendor_ok registry = true.
+Proof. vm_compute. split; reflexivity. Qed.
+Print Assumptions C01_registries_distinct.
+
+(* Kind consistency: the class a dispatcher finds in its registry writes that dispatcher's
+   event code - event classes their own code, every LE sub-event class 0x3E, every vendor
+   sub-event class 0xFF.  Derived from C01_registry_wf. *)
+Theorem C01_kind_consistent : forall kind code c,
+  find_class registry kind code = Some c -> c_event c = expected_event kind code.
+Proof.
+  intros kind code c. apply class_event_ok.
+  exact (proj1 (wf_registry_parts registry C01_registry_wf)).
+Qed.
+Print Assumptions C01_kind_consistent.
+
 Theorem C01_registry_codes_unique : codes_unique registry = true.
 Proof. vm_compute. reflexivity. Qed.
 Print Assumptions C01_registry_codes_unique.
@@ -110,10 +129,10 @@ Proof.
   intros c vs ps Hf. pose proof (find_class_sound registry _ _ _ Hf) as [Hin [Hk Hc]].
   pose proof (registry_class_wf registry c C01_registry_wf Hin) as Hw.
   assert (Hop : u_range 2 (c_code c) = true).
-  { pose proof C01_registry_wf as H. unfold wf_registry in H.
-    apply andb_true_iff in H as [H _]. apply andb_true_iff in H as [H _].
+  { pose proof (proj1 (wf_registry_parts registry C01_registry_wf)) as H.
     rewrite forallb_forall in H. specialize (H c Hin). unfold wf_class in H.
-    apply andb_true_iff in H as [_ H]. rewrite Hk in H. exact H. }
+    apply andb_true_iff in H as [_ H]. rewrite Hk in H. cbn in H.
+    apply andb_true_iff in H as [H _]. exact H. }
   exact (command_roundtrip registry c vs ps Hf Hw Hop).
 Qed.
 Print Assumptions C01_command_roundtrip.
@@ -143,12 +162,15 @@ Print Assumptions C01_unknown_opcode_preserved.
 Theorem C01_event_roundtrip : forall c vs ps,
   find_class registry K_EVENT (c_code c) = Some c ->
   c_code c <> HCI_LE_META_EVENT -> c_code c <> HCI_COMMAND_COMPLETE_EVENT ->
+  c_code c <> HCI_VENDOR_EVENT ->
   wf_fields (c_fields c) = true -> u_range 1 (c_code c) = true ->
   serialize_fields (c_fields c) vs = Some ps -> (length ps < 256)%nat ->
   in_range (c_fields c) (last ps 0) vs = true ->
   exists b, packet_bytes registry (PEvent (c_code c) true vs ps) = Some b /\
             forall extra, parse_packet registry (b ++ extra) = Some (PEvent (c_code c) true vs ps).
-Proof. exact (event_roundtrip registry). Qed.
+Proof.
+  intros c vs ps Hf. exact (event_roundtrip registry c vs ps Hf (C01_kind_consistent _ _ _ Hf)).
+Qed.
 Print Assumptions C01_event_roundtrip.
 
 Theorem C01_le_meta_roundtrip : forall c vs ps,
@@ -159,16 +181,23 @@ Theorem C01_le_meta_roundtrip : forall c vs ps,
   exists b, packet_bytes registry (PLeMeta (c_code c) true vs (c_code c :: ps)) = Some b /\
             forall extra, parse_packet registry (b ++ extra) =
                           Some (PLeMeta (c_code c) true vs (c_code c :: ps)).
-Proof. exact (le_meta_roundtrip registry). Qed.
+Proof.
+  intros c vs ps Hf. exact (le_meta_roundtrip registry c vs ps Hf (C01_kind_consistent _ _ _ Hf)).
+Qed.
 Print Assumptions C01_le_meta_roundtrip.
 
-(* every event (plain, Command Complete, LE meta, generic) with an exact length field and a
-   non-empty parameter block re-serialises to the bytes it was parsed from *)
+(* every event (plain, Command Complete, LE meta, vendor sub-event, generic) with an exact
+   length field and a non-empty parameter block re-serialises to the bytes it was parsed
+   from - in particular under the event code it arrived with, whatever class the dispatcher
+   found for it (kind consistency of the regenerated registries) *)
 Theorem C01_event_bytes_roundtrip : forall code ps p,
   bytes_ok (code :: ps) = true -> (length ps < 256)%nat -> ps <> [] ->
   parse_event registry (HCI_EVENT_PACKET :: code :: Z.of_nat (length ps) :: ps) = Some p ->
   packet_bytes registry p = Some (HCI_EVENT_PACKET :: code :: Z.of_nat (length ps) :: ps).
-Proof. exact (event_bytes_roundtrip registry). Qed.
+Proof.
+  intros code ps p.
+  exact (event_bytes_roundtrip registry code ps p (proj1 (wf_registry_parts registry C01_registry_wf))).
+Qed.
 Print Assumptions C01_event_bytes_roundtrip.
 
 Theorem C01_event_too_short : forall b0 code len rest,
@@ -177,7 +206,7 @@ Proof. exact (event_too_short registry). Qed.
 Print Assumptions C01_event_too_short.
 
 Theorem C01_unknown_event_preserved : forall code params,
-  code <> HCI_LE_META_EVENT -> find_class registry K_EVENT code = None ->
+  code <> HCI_LE_META_EVENT -> code <> HCI_VENDOR_EVENT -> find_class registry K_EVENT code = None ->
   u_range 1 code = true -> (length params < 256)%nat ->
   let b := HCI_EVENT_PACKET :: code :: Z.of_nat (length params) :: params in
   parse_packet registry b = Some (PEvent code false [] params) /\
@@ -194,6 +223,40 @@ Theorem C01_unknown_subevent_preserved : forall sub rest,
 Proof. exact (unknown_subevent_preserved registry). Qed.
 Print Assumptions C01_unknown_subevent_preserved.
 
+(* vendor events (0xFF): unless a registered factory claims the first two parameter bytes,
+   the packet is the generic vendor event with its data preserved byte for byte *)
+Theorem C01_vendor_shape :
+  option_map (fun c => (c_fields c, c_event c)) (find_class registry K_EVENT HCI_VENDOR_EVENT)
+  = Some ([F1 Rest], HCI_VENDOR_EVENT).
+Proof. vm_compute. reflexivity. Qed.
+Print Assumptions C01_vendor_shape.
+
+Theorem C01_vendor_generic_preserved : forall params,
+  no_rule_matches (r_vendor registry) params = true -> (length params < 256)%nat ->
+  let b := HCI_EVENT_PACKET :: HCI_VENDOR_EVENT :: Z.of_nat (length params) :: params in
+  parse_packet registry b = Some (PEvent HCI_VENDOR_EVENT true [VBytes params] params) /\
+  packet_bytes registry (PEvent HCI_VENDOR_EVENT true [VBytes params] params) = Some b.
+Proof.
+  intros params Hno.
+  pose proof C01_vendor_shape as Hsh.
+  destruct (find_class registry K_EVENT HCI_VENDOR_EVENT) as [c|] eqn:Hc; [|discriminate].
+  cbn [option_map] in Hsh. injection Hsh as Hfs Hev.
+  exact (vendor_generic_preserved registry c params Hno Hc Hfs Hev).
+Qed.
+Print Assumptions C01_vendor_generic_preserved.
+
+(* complete sweep of the code spaces, inside the kernel: for EVERY one of the 256 event
+   codes / LE sub-event codes the dispatcher either finds no class or finds a class that
+   writes the same event code back; for every vendor sub-event code, likewise *)
+Theorem C01_code_sweep :
+  forallb (fun code =>
+    match find_class registry K_EVENT code with Some c => c_event c =? code | None => true end &&
+    match find_class registry K_LE_EVENT code with Some c => c_event c =? HCI_LE_META_EVENT | None => true end &&
+    match find_class registry K_VENDOR code with Some c => c_event c =? HCI_VENDOR_EVENT | None => true end)
+    (zr 8 0) = true.
+Proof. vm_compute. reflexivity. Qed.
+Print Assumptions C01_code_sweep.
+
 (* ---------------------------------------------------------------- Command Complete *)
 (* per-run obligation: the Command Complete event class has the field list the theorem is
    stated for (num_hci_command_packets: 1, command_opcode: 2, return_parameters: '*') *)
@@ -206,6 +269,7 @@ Print Assumptions C01_cmd_complete_shape.
    class starts with a status), serialised inside a Command Complete event, they are parsed
    back by the command's return class into the same values. *)
 Theorem C01_cmd_complete_roundtrip : forall rc num op rn sf rvs rb,
+  existsb (Z.eqb op) (r_custom_return registry) = false ->
   assoc op (r_return registry) = Some (rn, sf) -> find_by_name registry K_RETURN rn = Some rc ->
   serialize_fields (c_fields rc) rvs = Some rb -> in_range (c_fields rc) (last rb 0) rvs = true ->
   (sf = true -> exists rest, rb = 0 :: rest) ->
@@ -214,13 +278,14 @@ Theorem C01_cmd_complete_roundtrip : forall rc num op rn sf rvs rb,
   exists b, packet_bytes registry (PCmdComplete [VInt num; VInt op] rn rvs []) = Some b /\
             parse_packet registry b = Some (PCmdComplete [VInt num; VInt op] rn rvs ps).
 Proof.
-  intros rc num op rn sf rvs rb Hret Hrc.
+  intros rc num op rn sf rvs rb Hcust Hret Hrc.
   pose proof C01_cmd_complete_shape as Hsh.
   destruct (find_class registry K_EVENT HCI_COMMAND_COMPLETE_EVENT) as [cc|] eqn:Hcc; [|discriminate].
   cbn [option_map] in Hsh. injection Hsh as Hfs.
   assert (Hin : In rc (r_classes registry)).
   { unfold find_by_name in Hrc. apply find_some in Hrc as [Hin _]. exact Hin. }
-  exact (cmd_complete_roundtrip registry cc rc num op rn sf rvs rb Hcc Hfs Hret Hrc
+  exact (cmd_complete_roundtrip registry cc rc num op rn sf rvs rb Hcc Hfs
+           (C01_kind_consistent _ _ _ Hcc) Hcust Hret Hrc
            (registry_class_wf registry rc C01_registry_wf Hin)).
 Qed.
 Print Assumptions C01_cmd_complete_roundtrip.
@@ -317,5 +382,10 @@ Proof. vm_compute. repeat split. Qed.
 (* unknown opcode 0x3FFF and unknown event code 0x77 are not registered *)
 Example C01_unknown_witness :
   find_class registry K_COMMAND 16383 = None /\ is_custom registry K_COMMAND 16383 = false /\
-  find_class registry K_EVENT 119 = None.
+  find_class registry K_EVENT 119 = None /\
+  (* LE sub-event 0x58 is not registered: the Android vendor sub-event of that number lives
+     in the vendor registry only *)
+  find_class registry K_LE_EVENT 88 = None /\
+  parse_packet registry [4; 62; 3; 88; 1; 2] = Some (PLeMeta 88 false [] [88; 1; 2]) /\
+  packet_bytes registry (PLeMeta 88 false [] [88; 1; 2]) = Some [4; 62; 3; 88; 1; 2].
 Proof. vm_compute. repeat split. Qed.
